@@ -3,8 +3,10 @@ C06 — BLS verification equals the predicate the EVM bn256 precompiles compute.
 
 Property theorems only (helpers: `Proofs/Bls.lean`, `Proofs/Bn256ConcMont.lean`, `Proofs/CodecChar.lean`).
 
-What is proved here, for EVERY instance of the operations that is a bilinear map (abstract
-`IsPairing`: any groups, any target group; `miller` only constrained off the identity):
+What is proved here, for EVERY instance of the operations that is a bilinear map on valid
+representations (abstract `IsPairing`: representation types with validity predicates and denotations
+in any groups, any target group; `miller` only constrained off the identity) — and the instance the
+correspondence driver evaluates is PROVED to be one (`evalOps_isPairing`, `evalOps_verify_iff`):
   * `verify` accepts ⇔ the signature parses to S and e(−S, g₂)·e(h•g₁, X) = 1   (`verify_is_equation`)
   * `PairingCheck` = "product of pairings is one", its identity-skipping is sound (`pairingCheck_skip_identity`)
   * with non-degeneracy: accept ⇔ S = x•(h•g₁) for X = x•g₂                    (`verify_accepts_iff_valid`)
@@ -22,6 +24,7 @@ every generated case instead; Keccak-256 is not specified in Lean beyond the exe
 `Model/Keccak.lean`, which the run compares with the library's hash on every message.
 -/
 import DosModel.Proofs.Bls
+import DosModel.Proofs.BlsEval
 import DosModel.Proofs.Bn256ConcMont
 import DosModel.Proofs.Bn256ConcRedc
 import DosModel.Proofs.Bn256ConcCurve
@@ -32,51 +35,74 @@ import DosModel.Gen.CodecFacts
 namespace Dos.Props.C06
 open Dos Dos.Bn256 Dos.Codec Dos.CodecBytes Dos.Bls
 
-variable {P1 P2 PT T : Type} [AddCommGroup P1] [AddCommGroup P2] [CommGroup T]
+variable {P1 P2 PT A1 A2 T : Type} [AddCommGroup A1] [AddCommGroup A2] [CommGroup T]
 
 /-! ## 1. `PairingCheck` -/
 
-/-- **`PairingCheck(a, b)` returns true iff ∏ e(aᵢ, bᵢ) = 1**, for any number of pairs; skipping the
-pairs that contain an identity does not change the product.  It panics (index out of range) iff
-`b` is shorter than `a`. -/
-theorem pairingCheck_skip_identity (o : PairingOps P1 P2 PT) (e : P1 → P2 → T) (fe : PT → T)
-    (h : IsPairing o e fe) (as : List P1) (bs : List P2) :
-    (as.length ≤ bs.length →
-      ∃ b, pairingCheck o as bs = .ok b ∧ (b = true ↔ pairProd e as bs = 1)) ∧
+/-- **`PairingCheck(a, b)` returns true iff ∏ e(aᵢ, bᵢ) = 1**, for any number of pairs of valid
+points; skipping the pairs that contain an identity does not change the product.  It panics (index
+out of range) iff `b` is shorter than `a`. -/
+theorem pairingCheck_skip_identity (o : PairingOps P1 P2 PT) (V1 : P1 → Prop) (V2 : P2 → Prop)
+    (VT : PT → Prop) (ι1 : P1 → A1) (ι2 : P2 → A2) (e : A1 → A2 → T) (fe : PT → T)
+    (h : IsPairing o V1 V2 VT ι1 ι2 e fe) (as : List P1) (bs : List P2) :
+    (as.length ≤ bs.length → (∀ a ∈ as, V1 a) → (∀ b ∈ bs, V2 b) →
+      ∃ b, pairingCheck o as bs = .ok b ∧ (b = true ↔ pairProd e ι1 ι2 as bs = 1)) ∧
     (bs.length < as.length → pairingCheck o as bs = .panic "index out of range") := by
   refine ⟨pairingCheck_spec h as bs, ?_⟩
   intro hl
   simp [pairingCheck, pairingAcc_short o as bs o.one hl]
 
 /-- identity pairs contribute 1 -/
-theorem pairing_identity_is_one (o : PairingOps P1 P2 PT) (e : P1 → P2 → T) (fe : PT → T)
-    (h : IsPairing o e fe) (a : P1) (b : P2) : e 0 b = 1 ∧ e a 0 = 1 :=
+theorem pairing_identity_is_one (o : PairingOps P1 P2 PT) (V1 : P1 → Prop) (V2 : P2 → Prop)
+    (VT : PT → Prop) (ι1 : P1 → A1) (ι2 : P2 → A2) (e : A1 → A2 → T) (fe : PT → T)
+    (h : IsPairing o V1 V2 VT ι1 ι2 e fe) (a : A1) (b : A2) : e 0 b = 1 ∧ e a 0 = 1 :=
   ⟨h.zero_left b, h.zero_right a⟩
 
 example : pairingCheck intOps.toPairingOps [3, 0, -6] [2, 5, 1] = .ok true := by decide
 example : pairingCheck intOps.toPairingOps [3, 1] [2] = .panic "index out of range" := by decide
+example : ∃ b, pairingCheck intOps.toPairingOps [3, 0, -6] [2, 5, 1] = .ok b ∧
+    (b = true ↔ pairProd (fun a b : Int => Multiplicative.ofAdd (a * b)) id id [3, 0, -6] [2, 5, 1] = 1) :=
+  (pairingCheck_skip_identity _ _ _ _ _ _ _ _ intOps_isPairing _ _).1 (by simp)
+    (fun _ _ => trivial) (fun _ _ => trivial)
 
 /-! ## 2. `bls.Verify` -/
+
+/-- the side conditions under which the operations `bls.go` calls fit an `IsPairing` instance:
+parsing returns valid points, the hash point and both keys are valid, negation is the group negation -/
+structure VerifyCtx (o : BlsOps P1 P2 PT) (V1 : P1 → Prop) (V2 : P2 → Prop) (ι1 : P1 → A1) : Prop where
+  parse_valid : ∀ sig s, o.unmarshal1 sig = .ok s → V1 s
+  hash_valid : ∀ msg, V1 (hashToPoint o msg)
+  neg : ∀ s, V1 s → V1 (o.neg1 s) ∧ ι1 (o.neg1 s) = -ι1 s
+  base2_valid : V2 o.base2
 
 /-- **`Verify` accepts ⇔ the signature parses and e(−S, g₂) · e(h•g₁, X) = 1**, where
 `h•g₁ = hashToPoint msg`; identity signature / identity key included (no side condition);
 an unparsable signature is rejected with the parse error; `Verify` never panics if parsing does not. -/
-theorem verify_is_equation (o : BlsOps P1 P2 PT) (e : P1 → P2 → T) (fe : PT → T)
-    (h : IsPairing o.toPairingOps e fe) (hneg : ∀ s, o.neg1 s = -s)
-    (X : P2) (msg sig : Bytes) :
+theorem verify_is_equation (o : BlsOps P1 P2 PT) (V1 : P1 → Prop) (V2 : P2 → Prop) (VT : PT → Prop)
+    (ι1 : P1 → A1) (ι2 : P2 → A2) (e : A1 → A2 → T) (fe : PT → T)
+    (h : IsPairing o.toPairingOps V1 V2 VT ι1 ι2 e fe) (c : VerifyCtx o V1 V2 ι1)
+    (X : P2) (hX : V2 X) (msg sig : Bytes) :
     (verify o X msg sig = .accept ↔
-      ∃ s, o.unmarshal1 sig = .ok s ∧ e (-s) o.base2 * e (hashToPoint o msg) X = 1) ∧
+      ∃ s, o.unmarshal1 sig = .ok s ∧
+        e (-ι1 s) (ι2 o.base2) * e (ι1 (hashToPoint o msg)) (ι2 X) = 1) ∧
     (∀ er, o.unmarshal1 sig = .err er → verify o X msg sig = .rejectParse er) ∧
     (∀ s, o.unmarshal1 sig = .ok s →
       verify o X msg sig = .accept ∨ verify o X msg sig = .rejectPairing) := by
   have key : ∀ s, o.unmarshal1 sig = .ok s →
       ∃ b, verify o X msg sig = (if b then .accept else .rejectPairing) ∧
-        (b = true ↔ e (-s) o.base2 * e (hashToPoint o msg) X = 1) := by
+        (b = true ↔ e (-ι1 s) (ι2 o.base2) * e (ι1 (hashToPoint o msg)) (ι2 X) = 1) := by
     intro s hs
+    have hsv := c.parse_valid sig s hs
     obtain ⟨b, hb, hiff⟩ := pairingCheck_spec h [o.neg1 s, hashToPoint o msg] [o.base2, X] (by simp)
+      (by intro a ha; simp at ha; rcases ha with rfl | rfl
+          · exact (c.neg s hsv).1
+          · exact c.hash_valid msg)
+      (by intro b hb; simp at hb; rcases hb with rfl | rfl
+          · exact c.base2_valid
+          · exact hX)
     refine ⟨b, ?_, ?_⟩
     · simp only [verify, hs, hb]; cases b <;> rfl
-    · rw [hiff]; simp [pairProd, hneg]
+    · rw [hiff]; simp [pairProd, (c.neg s hsv).2]
   refine ⟨⟨?_, ?_⟩, ?_, ?_⟩
   · intro hacc
     cases hs : o.unmarshal1 sig with
@@ -97,46 +123,91 @@ theorem verify_is_equation (o : BlsOps P1 P2 PT) (e : P1 → P2 → T) (fe : PT 
     · right; rw [hv]; rfl
     · left; rw [hv]; rfl
 
-/-- **Meaning of acceptance** (non-degenerate pairing): for a key X = x•g₂ and g₂ = `base2`,
-`Verify` accepts exactly the byte strings that parse to the point x•(h•g₁) — the signature the
-holder of x produces.  (Non-degeneracy is used as: e(P, g₂) = 1 → P = O.) -/
-theorem verify_accepts_iff_valid (o : BlsOps P1 P2 PT) (e : P1 → P2 → T) (fe : PT → T)
-    (h : IsPairing o.toPairingOps e fe) (hneg : ∀ s, o.neg1 s = -s)
-    (hnd : ∀ a, e a o.base2 = 1 → a = 0)
-    (x : Nat) (msg sig : Bytes) :
-    verify o (x • o.base2) msg sig = .accept ↔
-      ∃ s, o.unmarshal1 sig = .ok s ∧ s = x • hashToPoint o msg := by
-  rw [(verify_is_equation o e fe h hneg (x • o.base2) msg sig).1]
+/-- **Meaning of acceptance** (non-degenerate pairing): for a key denoting x•g₂,
+`Verify` accepts exactly the byte strings that parse to a point denoting x•(h•g₁) — the signature
+the holder of x produces.  (Non-degeneracy is used as: e(P, g₂) = 1 → P = O.) -/
+theorem verify_accepts_iff_valid (o : BlsOps P1 P2 PT) (V1 : P1 → Prop) (V2 : P2 → Prop)
+    (VT : PT → Prop) (ι1 : P1 → A1) (ι2 : P2 → A2) (e : A1 → A2 → T) (fe : PT → T)
+    (h : IsPairing o.toPairingOps V1 V2 VT ι1 ι2 e fe) (c : VerifyCtx o V1 V2 ι1)
+    (hnd : ∀ a, e a (ι2 o.base2) = 1 → a = 0)
+    (x : Nat) (X : P2) (hX : V2 X) (hXx : ι2 X = x • ι2 o.base2) (msg sig : Bytes) :
+    verify o X msg sig = .accept ↔
+      ∃ s, o.unmarshal1 sig = .ok s ∧ ι1 s = x • ι1 (hashToPoint o msg) := by
+  rw [(verify_is_equation o V1 V2 VT ι1 ι2 e fe h c X hX msg sig).1]
   constructor
   · rintro ⟨s, hs, heq⟩
     refine ⟨s, hs, ?_⟩
-    rw [h.nsmul_right, ← h.nsmul_left, ← h.add_left] at heq
+    rw [hXx, h.nsmul_right, ← h.nsmul_left, ← h.add_left] at heq
     have := hnd _ heq
     rw [neg_add_eq_zero] at this
     exact this
-  · rintro ⟨s, hs, rfl⟩
+  · rintro ⟨s, hs, hs'⟩
     refine ⟨_, hs, ?_⟩
-    rw [h.nsmul_right, ← h.nsmul_left, ← h.add_left, neg_add_cancel, h.zero_left]
+    rw [hXx, hs', h.nsmul_right, ← h.nsmul_left, ← h.add_left, neg_add_cancel, h.zero_left]
 
-/-- the library's own signature verifies under the matching key -/
-theorem sign_verifies (o : BlsOps P1 P2 PT) (e : P1 → P2 → T) (fe : PT → T)
-    (h : IsPairing o.toPairingOps e fe) (hneg : ∀ s, o.neg1 s = -s)
-    (hmul : ∀ k a, o.mul1 k a = k • a) (hrt : ∀ a, o.unmarshal1 (o.marshal1 a) = .ok a)
-    (x : Nat) (msg : Bytes) :
-    verify o (x • o.base2) msg (sign o x msg) = .accept := by
-  rw [(verify_is_equation o e fe h hneg _ msg _).1]
+/-- the library's own signature verifies under the matching key, provided encode-then-decode is the
+identity ON VALID POINTS (what C11 `g1_roundtrip` proves — it is false for junk representations
+such as the affine pair (0,0)) and `Mul` is the scalar multiple on valid points -/
+theorem sign_verifies (o : BlsOps P1 P2 PT) (V1 : P1 → Prop) (V2 : P2 → Prop)
+    (VT : PT → Prop) (ι1 : P1 → A1) (ι2 : P2 → A2) (e : A1 → A2 → T) (fe : PT → T)
+    (h : IsPairing o.toPairingOps V1 V2 VT ι1 ι2 e fe) (c : VerifyCtx o V1 V2 ι1)
+    (hmul : ∀ k a, V1 a → V1 (o.mul1 k a) ∧ ι1 (o.mul1 k a) = k • ι1 a)
+    (hrt : ∀ a, V1 a → o.unmarshal1 (o.marshal1 a) = .ok a)
+    (x : Nat) (X : P2) (hX : V2 X) (hXx : ι2 X = x • ι2 o.base2) (msg : Bytes) :
+    verify o X msg (sign o x msg) = .accept := by
+  rw [(verify_is_equation o V1 V2 VT ι1 ι2 e fe h c X hX msg _).1]
   unfold sign
-  refine ⟨_, hrt _, ?_⟩
-  rw [hmul, h.nsmul_right, ← h.nsmul_left, ← h.add_left, neg_add_cancel, h.zero_left]
+  have hm := hmul x _ (c.hash_valid msg)
+  refine ⟨_, hrt _ hm.1, ?_⟩
+  rw [hm.2, hXx, h.nsmul_right, ← h.nsmul_left, ← h.add_left, neg_add_cancel, h.zero_left]
 
-/-! non-vacuity: the ℤ-instance (e(a,b) = a·b) satisfies every hypothesis -/
-example : verify intOps (7 • intOps.base2) [1, 2] [21] = .accept :=
-  (verify_accepts_iff_valid intOps _ _ intOps_isPairing (fun _ => rfl)
-    (by intro a ha; simpa [intOps] using congrArg Multiplicative.toAdd ha) 7 [1, 2] [21]).mpr
-    ⟨21, rfl, by simp [hashToPoint, intOps]⟩
+/-! ### the instance the correspondence run evaluates satisfies ALL the hypotheses
+
+`Bls.evalOps` (G1 = concrete affine model with `unmarshalG1`/`marshalG1` of C11, a key = its
+discrete log, e(P, x) = x•P) with V1 = VT = `G1.valid`, ι1 = `Compose.pt1` into Mathlib's group
+E(F_p): `evalOps_isPairing` (`Proofs/BlsEval.lean`), and below the remaining side conditions.  So the
+three generic theorems above hold, unconditionally, of the function `drv_c06` runs. -/
+
+theorem evalOps_ctx : VerifyCtx evalOps (fun P : G1 => G1.valid P = true) (fun _ : Nat => True)
+    Compose.pt1 where
+  parse_valid := evalOps_parse_valid
+  hash_valid := evalOps_hash_valid
+  neg := evalOps_neg
+  base2_valid := trivial
+
+/-- **what the driver computes**: for every key x, message and byte string, `verify evalOps` accepts
+⇔ the bytes parse (C11 decoder) to exactly the point x•(h•g₁), h = keccak256(msg) mod r.
+No hypothesis left: the instance of `verify_accepts_iff_valid` at `evalOps`. -/
+theorem evalOps_verify_iff (x : Nat) (msg sig : Bytes) :
+    verify evalOps x msg sig = .accept ↔
+      ∃ S, unmarshalG1 sig = .ok S ∧ S = G1.smul x (G1.smul (keccakScalar msg) g1gen) := by
+  have := verify_accepts_iff_valid evalOps _ _ _ _ _ _ _ evalOps_isPairing evalOps_ctx
+    evalOps_nondegenerate x x trivial (by show ((x : Nat) : ℤ) = x • ((1 : Nat) : ℤ); simp) msg sig
+  rw [this]
+  constructor
+  · rintro ⟨S, hS, hpt⟩
+    refine ⟨S, hS, ?_⟩
+    have hv := evalOps_parse_valid sig S hS
+    have hh := evalOps_hash_valid msg
+    apply Compose.pt1_inj hv (valid_smul x _ hh)
+    rw [Compose.pt1_smul x _ hh]; exact hpt
+  · rintro ⟨S, hS, rfl⟩
+    exact ⟨_, hS, Compose.pt1_smul x _ (evalOps_hash_valid msg)⟩
+
+/-- the model's own signatures verify, for every key and message (instance of `sign_verifies`; its
+round-trip hypothesis is C11's `g1_roundtrip` on valid points) -/
+theorem evalOps_sign_verifies (x : Nat) (msg : Bytes) :
+    verify evalOps x msg (sign evalOps x msg) = .accept :=
+  sign_verifies evalOps _ _ _ _ _ _ _ evalOps_isPairing evalOps_ctx evalOps_mul evalOps_roundtrip
+    x x trivial (by show ((x : Nat) : ℤ) = x • ((1 : Nat) : ℤ); simp) msg
+
+/-! executable examples on the toy ℤ-instance (e(a,b) = a·b; `intOps_isPairing`) -/
+example : verify intOps 7 [1, 2] [21] = .accept := by decide
 example : verify intOps 7 [1, 2] [20] = .rejectPairing := by decide
 example : verify intOps 7 [1, 2] [] = .rejectParse .short := by decide
 example : verify intOps 0 [] [0] = .accept := by decide   -- identity key, identity signature
+example : verify evalOps 0 [] (List.replicate 64 0) = .accept :=
+  (evalOps_verify_iff 0 [] _).mpr ⟨.inf, by decide, rfl⟩
 
 /-! ## 3. what the library emits is a canonical EVM encoding -/
 
